@@ -38,6 +38,73 @@ def Act.liveSwappable : Act → Bool
   | .updatePl o n => o.dlq = n.dlq && o.conns.map (·.id) = n.conns.map (·.id) && o.procs.map (·.id) = n.procs.map (·.id)
   | _ => false
 
+/-- `provisioning.Change` as far as it is hashed: Resource (0 pipeline, 1 connector, 2 processor),
+ID, Action (0 create, 1 update, 2 delete), Effect (`restart` or in-place), ConfigPaths,
+LiveSwappable (`Code` is a function of Resource and Action). -/
+structure Change where
+  res     : Nat
+  id      : Id
+  act     : Nat
+  restart : Bool
+  paths   : List String
+  live    : Bool
+deriving Repr, DecidableEq, Inhabited
+
+/-- `settingsDiffPaths` on the abstract connector settings codes (`0 = {}`, `k = {path: …}`). -/
+def cnSettingsPaths (a b : Nat) : List String := if a = b then [] else ["settings.path"]
+
+/-- `settingsDiffPaths` on the processor settings codes (`0 = {}`, `k = {field: …, value: v<k>}`). -/
+def prSettingsPaths (a b : Nat) : List String :=
+  if a = b then [] else if a = 0 ∨ b = 0 then ["settings.field", "settings.value"] else ["settings.value"]
+
+def pathIf (c : Bool) (p : String) : List String := if c then [p] else []
+
+/-- `action.Describe()` with `diffPipelineFields` / `diffConnectorFields` / `diffProcessorFields`
+(`live` is filled in by `planChanges`). -/
+def Act.describe : Act → Change
+  | .createPl c _ => { res := 0, id := c.id, act := 0, restart := false, paths := [], live := false }
+  | .deletePl c _ => { res := 0, id := c.id, act := 2, restart := true, paths := [], live := false }
+  | .updatePl o n =>
+    let cs := o.conns.map (·.id) ≠ n.conns.map (·.id)
+    let ps := o.procs.map (·.id) ≠ n.procs.map (·.id)
+    { res := 0, id := o.id, act := 1, restart := cs || ps,
+      paths := pathIf (o.name ≠ n.name) "name" ++ pathIf (o.desc ≠ n.desc) "description" ++
+               pathIf cs "connectors" ++ pathIf ps "processors" ++ pathIf (o.dlq ≠ n.dlq) "dlq",
+      live := false }
+  | .createCn c _ => { res := 1, id := c.id, act := 0, restart := true, paths := [], live := false }
+  | .deleteCn c _ => { res := 1, id := c.id, act := 2, restart := true, paths := [], live := false }
+  | .updateCn o n =>
+    { res := 1, id := o.id, act := 1, restart := false,
+      paths := pathIf (o.name ≠ n.name) "name" ++ pathIf (o.plugin ≠ n.plugin) "plugin" ++
+               pathIf (o.procs.map (·.id) ≠ n.procs.map (·.id)) "processors" ++ cnSettingsPaths o.settings n.settings,
+      live := false }
+  | .createPr c _ _ => { res := 2, id := c.id, act := 0, restart := true, paths := [], live := false }
+  | .deletePr c _ _ => { res := 2, id := c.id, act := 2, restart := true, paths := [], live := false }
+  | .updatePr o n =>
+    { res := 2, id := o.id, act := 1, restart := false,
+      paths := pathIf (o.plugin ≠ n.plugin) "plugin" ++ pathIf (o.workers ≠ n.workers) "workers" ++
+               pathIf (o.cond ≠ n.cond) "condition" ++ prSettingsPaths o.settings n.settings,
+      live := false }
+
+/-- `Change.liveSwappable`, from Resource / Action / ConfigPaths as the code computes it. -/
+def Change.liveSwappable (c : Change) : Bool :=
+  if c.res = 2 then c.act = 1 && !c.paths.contains "workers"
+  else if c.res = 0 then c.act = 1 && c.paths.all (fun p => p = "name" || p = "description")
+  else false
+
+/-- the `Changes` of `Plan(desired)`: describe every action, a brand-new pipeline's changes are
+all in-place, then classify live-swappability. -/
+def planChanges (v : Variant) (old : Option PipeCfg) (c : PipeCfg) : List Change :=
+  ((build v 1 old c).map Act.describe).map fun ch =>
+    let ch := if old.isNone then { ch with restart := false } else ch
+    { ch with live := ch.liveSwappable }
+
+/-- What `Diff.computeHash` digests: (PipelineID, Changes, Desired). The hash is abstracted as
+this view itself (SHA-256 collision-freeness is an assumption). -/
+abbrev PlanView := List Change × PipeCfg
+
+def planView (v : Variant) (old : Option PipeCfg) (c : PipeCfg) : PlanView := (planChanges v old c, c)
+
 /-- `Diff.LiveEligible`. -/
 def liveEligible (plan : List Act) : Bool := !plan.isEmpty && plan.all Act.liveSwappable
 
@@ -79,15 +146,16 @@ def flipState (c : PipeCfg) (env : LiveEnv) (s : St) : St :=
   if !runningNow s c.id && env.becomesRunning then setStatusRaw c.id 1 s else s
 
 /-- `ApplyPlanLive(desired, hash, allowRestartOnRunning)`; `presented` is the plan whose hash
-the caller presents. Result, state, event log. Order of the steps as in the source: plan, hash
+the caller presents (as the view the hash digests: changes with their config paths, and the
+desired config). Result, state, event log. Order of the steps as in the source: plan, hash
 check, empty check, first status read, re-read when not running, authorisation gate, apply. -/
-def applyPlanLive (v : Variant) (c : PipeCfg) (presented : List Act) (allow : Bool) (env : LiveEnv) (s : St) :
+def applyPlanLive (v : Variant) (c : PipeCfg) (presented : PlanView) (allow : Bool) (env : LiveEnv) (s : St) :
     Except Err Unit × St × List Ev :=
   match exportPl v s.mem c.id with
   | .error e => (.error e, s, [])
   | .ok old =>
     let fresh := build v 1 old c
-    if presented ≠ fresh then (.error .stale, s, [])
+    if presented ≠ planView v old c then (.error .stale, s, [])
     else if fresh.isEmpty then (.ok (), s, [])
     else
       -- first read (from `s`), re-read when it said "not running" (from the flipped state)
